@@ -194,7 +194,54 @@ def sorting_permutation(eng, a, stable):
     return out
 
 
+def _fixed_cells(v):
+    """the cells of a 1-D array of CONCRETE length whose contents are (partly) symbolic, else None"""
+    if isinstance(v, NArr) and v.ndim == 1 and v.kind in ("int", "real", "bool") and any(isinstance(x, Sym) for x in v.items):
+        return list(v.items), v.kind
+    if _is_sarr(v) and isinstance(v.n, int) and not isinstance(v.n, bool) and v.kind in ("int", "real", "bool"):
+        return [v.get(j) for j in range(v.n)], v.kind
+    return None
+
+
+def fixed_sorting_permutation(eng, cells, kind, stable):
+    """argsort of n symbolic cells (n concrete): n fresh positions, pairwise different and in [0, n), along which the keys do not decrease;
+    stable: equal keys in position order (that permutation is unique).  Quantifier-free: the same facts as the model for symbolic length."""
+    n = len(cells)
+    kk = "int" if kind == "bool" else kind
+    keys = [to_z3(x, kk) for x in cells]
+    ck = ("fixed-order", tuple(k.get_id() for k in keys), bool(stable))
+    hit = eng.ghost.get(ck) if stable else None
+    if hit is None:
+        used(eng, "argsort-of-1d-array: a permutation of the positions (ghost inverse) listing the keys in non-decreasing order; the sorted key "
+             "sequence is unique; stable: equal keys keep their position order, otherwise the order among equal keys is left open")
+        o = [z3.Int(fresh_name(f"order{k}_")) for k in range(n)]
+
+        def key_at(p):
+            z = keys[-1]
+            for j in range(n - 2, -1, -1):
+                z = z3.If(p == j, keys[j], z)
+            return z
+
+        ko = [key_at(p) for p in o]
+        facts = [z3.And(p >= 0, p < n) for p in o]
+        if n > 1:
+            facts.append(z3.Distinct(*o))
+        for k in range(n - 1):  # adjacent pairs suffice (both orders are transitive)
+            facts.append(z3.Or(ko[k] < ko[k + 1], z3.And(ko[k] == ko[k + 1], o[k] < o[k + 1])) if stable else ko[k] <= ko[k + 1])
+        if facts:
+            eng.assume(z3.And(*facts))
+        hit = o
+        if stable:
+            eng.ghost[ck] = o
+    return NArr((n,), [Sym(p, "int") for p in hit], "int", np.dtype("int64"))
+
+
 def _np_argsort(eng, args, kwargs):
+    fc = _fixed_cells(args[0]) if args else None
+    if fc is not None and not eng.spec_mode:
+        if len(args) > 1 and args[1] not in (-1, 0) or kwargs.get("axis", -1) not in (-1, 0) or kwargs.get("order") is not None or len(args) > 2:
+            raise Unsupported("np.argsort options")
+        return fixed_sorting_permutation(eng, fc[0], fc[1], _stable_requested(kwargs))
     a = _mat(eng, _as_sarr(args[0]) if args else None)
     if a is None:
         return _chain(np.argsort, "numpy.argsort")(eng, args, kwargs)
@@ -394,6 +441,13 @@ def _np_lexsort(eng, args, kwargs):
 
 
 def _np_empty_like(eng, args, kwargs):
+    if args and isinstance(args[0], NArr) and len(args) == 1 and not {k for k in kwargs if k != "dtype"}:
+        from .npmodels import kind_of_dtype
+
+        src, dt = args[0], kwargs.get("dtype")
+        kind = kind_of_dtype(dt) if dt is not None else src.kind
+        used(eng, "np.empty_like(array): a fresh array of the same shape with ARBITRARY contents")
+        return NArr(src.shape, [fresh(kind, "empty") for _ in src.items], kind, dt if dt is not None else src.dtype)
     a = _as_sarr(args[0]) if args else None
     if a is None or len(args) > 1 or {k for k in kwargs if k != "dtype"}:
         return _chain(np.empty_like, "numpy.empty_like")(eng, args, kwargs)
@@ -456,6 +510,40 @@ def _pd_series(eng, args, kwargs):
     return ext_C05_frame.Series5.of(SArr(a.arr, a.n, a.kind, name=a.name, dtype=a.dtype), None)
 
 
+# ------------------------------------------------------------------ log2 / ceil / floor of a CONCRETE number (round counts of a table of fixed size)
+def _concrete_math(fn, name, exact):
+    """`int(np.log2(n))`, `np.ceil(np.log2(n))` ... with n the row count of a table of fixed size: plain arithmetic on a number.  log2 is
+    evaluated in float64 as numpy does (exact for powers of two, strictly between the neighbouring integers otherwise, for arguments below
+    2**49); symbolic operands go to the stock model, if there is one."""
+    import math
+    from fractions import Fraction
+
+    def model(eng, args, kwargs):
+        if len(args) == 1 and not kwargs and isinstance(args[0], (int, float, Fraction)) and not isinstance(args[0], bool):
+            x = args[0]
+            if name == "log2":
+                if x <= 0:
+                    raise Unsupported("log2 of a number that is not positive (numpy: -inf / nan with a warning)")
+                if x >= 2 ** 49:
+                    raise Unsupported("log2 of a number beyond 2**49 (float rounding may reach an integer)")
+            used(eng, f"{name} of a concrete number, evaluated exactly as float64 does")
+            return exact(math, Fraction, x)
+        return _chain(fn, "numpy." + name)(eng, args, kwargs)
+
+    return model
+
+
+_MINE[np.log2] = _concrete_math(np.log2, "log2", lambda math, F, x: F(math.log2(float(x))))
+_MINE[np.ceil] = _concrete_math(np.ceil, "ceil", lambda math, F, x: F(math.ceil(F(x))))
+_MINE[np.floor] = _concrete_math(np.floor, "floor", lambda math, F, x: F(math.floor(F(x))))
+try:
+    import math as _math
+
+    _MINE[_math.log2] = _concrete_math(_math.log2, "log2", lambda math, F, x: F(math.log2(float(x))))
+    _MINE[_math.ceil] = _concrete_math(_math.ceil, "ceil", lambda math, F, x: math.ceil(F(x)))
+    _MINE[_math.floor] = _concrete_math(_math.floor, "floor", lambda math, F, x: math.floor(F(x)))
+except ImportError:  # pragma: no cover
+    pass
 _MINE[np.lexsort] = _np_lexsort
 _MINE[np.empty_like] = _np_empty_like
 try:
@@ -504,6 +592,8 @@ class ModelsProxy:
 
         if name in _METHODS and _is_sarr(v):
             return NativeMethod(_METHODS[name], v, name)
+        if name == "argsort" and _fixed_cells(v) is not None:
+            return NativeMethod(_m_argsort, v, name)
         return models.method_of(eng, v, name)
 
 
